@@ -31,6 +31,10 @@ Guards:
 * LIMIT/OFFSET closures are not compared on MSSQL: the lambda form binds the value as a
   generic parameter, the direct form as a "simple integer" limit which MSSQL renders as
   ``TOP n`` (same rows, legitimately different text).
+
+Candidate genuine defect reported on the unchanged tree: ``none-closure-value-bound-as-parameter``
+(a closure value of None is bound as a parameter: ``y = ?`` [None] instead of ``y IS NULL``,
+``LIMIT ?`` [None] instead of no LIMIT); proposed patch in selftest/C17/proposed_fix_gb.patch.txt.
 """
 from __future__ import annotations
 
